@@ -23,6 +23,7 @@ from ..core import Ctx, PropSpec, Unsupported
 from ..extract import where
 from ..facts import FactFlow, entails
 from ..normalize import inline_helpers
+from ..roles import bits_fn, bits_name
 from ..harness import Harness
 from ..interp import ExcVal, Obj, Raised
 from ..models import ccsds_bytes, make_interp, raw_packet, source_externals
@@ -213,7 +214,7 @@ def single_writer(ctx: Ctx):
         ctx.unknown("R14.2", f"{PK}::RawPacketData", "no cursor write found at all")
     for fi in prog.functions.values():
         for n in walk_local(fi.node):
-            if isinstance(n, ast.Call) and (dotted(n.func) or "").split(".")[-1] == "_extract_bits" and fi.relpath != PK:
+            if isinstance(n, ast.Call) and (dotted(n.func) or "").split(".")[-1] == bits_name(prog) and fi.relpath not in (PK, getattr(bits_fn(prog), "relpath", PK)):
                 ctx.refuted("R14.2", f"{fi.key}::_extract_bits", "a decoder extracts bits without moving the cursor", where=where(fi, n))
     ctx.proved("R14.2", f"{PK}::_extract_bits::callers", "only called inside packets.py")
 
